@@ -341,7 +341,49 @@ def run(ctx):
     if r1 != r2:
         ctx.fail_input("a fresh gap flips an Or choice", {"program": "(CaselessLiteral('aB') ^ Word('ab') + ZeroOrMore('+')) + ';'",
                        "base": "ab;", "input": "ab ;"}, r1, r2, theorem="C09 statement", signature="or_longest_counts_eaten_blanks")
-    ctx.count_cases("corpus", 4)
+    # directed regions reached through a Forward whose body is a SEQUENCE (the registered finding concerns alternation bodies)
+    def _sub():
+        sub = pp.Forward()
+        sub <<= pp.Literal("[") + pp.Word("0123456789") + pp.Literal("]") + pp.Opt(sub)
+        return pp.Combine(pp.Word("ab") + sub) + pp.Opt(pp.Literal("=") + pp.Word("0123456789"))
+
+    def _unit():
+        unit = pp.Forward()
+        unit <<= pp.Word("px")
+        unit.leave_whitespace()
+        return pp.Word("0123456789") + unit
+
+    def _unit_ws():
+        f = pp.Forward()
+        f <<= pp.Word("ab")
+        f.set_whitespace_chars(" ")
+        return pp.Literal(":") + f
+
+    for mk, s_ok, gaps in [(_sub, "ab[1][2] = 5", ["ab [1][2] = 5", "ab\t[1][2] = 5"]), (_unit, "12px", ["12 px", "12\npx"]),
+                           (_unit_ws, ": ab", [":\nab", ": \nab"])]:
+        a = outcome(pp, mk(), s_ok)
+        for s_gap in gaps:
+            b = outcome(pp, mk(), s_gap)
+            if a[0] != "ok" or b == a:
+                ctx.fail_input("a gap in front of a non-skipping Forward (Combine region / leave_whitespace / own whitespace set) was skipped",
+                               {"directed": mk.__name__, "base": s_ok, "input": s_gap}, "not the same result as the contiguous text", b,
+                               theorem="PP.Parse.preParse_noskip (oracle)")
+    # comments wherever whitespace may appear - also between the pieces of a Combine(adjacent=False)
+    def _loose(cmt):
+        g = pp.Keyword("FROM") + pp.Combine(pp.Word("ab") + "." + pp.Word("ab"), adjacent=False)("table") + pp.Opt(pp.Keyword("AS") + pp.Word("ab"))
+        g.ignore(cmt)
+        return g
+    for cmt, text in [(pp.c_style_comment, "/* c */"), (pp.python_style_comment, "# c\n")]:
+        base = "FROM ab . ba AS a"
+        want = outcome(pp, _loose(cmt), base)
+        for v in [f"FROM ab {text} . ba AS a", f"FROM ab . {text} ba AS a", f"FROM {text} ab . ba AS a", f"FROM ab {text}.{text} ba AS a",
+                  f"FROM ab . ba {text} AS a"]:
+            got = outcome(pp, _loose(cmt), v)
+            if want[0] != "ok" or got != want:
+                ctx.fail_input("a comment inserted where whitespace may appear changes the result (Combine(adjacent=False) region)",
+                               {"directed": "loose-combine", "comment": text, "base": base, "input": v}, want, got,
+                               theorem="C09 statement (ignore propagation)")
+    ctx.count_cases("corpus", 4 + 6 + 10)
     # example grammars of the repository
     n_ex = 0
     for name, root, docs, _ in example_jobs(pp):
